@@ -477,6 +477,14 @@ func c18BuildPool() bool {
 			}
 		}
 	}
+	// a comment-only / an empty input BEFORE another input through the same (eval-all) decoder: what the
+	// decoder keeps from an input without a document must not reach the next one
+	for i, ex := range c18Exprs["EA_MULTI"] {
+		add(c18Entry{Expr: ex, Files: []string{"d_cmt.yaml", "d_map2.yaml"}, In: "yaml", Out: c18Outs[i%2], All: true})
+		add(c18Entry{Expr: ex, Files: []string{"d_cmt.yaml"}, In: "yaml", Out: c18Outs[(i+1)%2], All: true})
+		add(c18Entry{Expr: ex, Files: []string{"d_empty.yaml", "d_map.yaml"}, In: "yaml", Out: c18Outs[i%2], All: true})
+		add(c18Entry{Expr: ex, Files: []string{"d_map2.yaml"}, In: "yaml", Out: c18Outs[i%2], All: true})
+	}
 	coreSeen := map[string]bool{}
 	for _, e := range c18Pool {
 		if len(e.Files) == 1 && c18BigDocs[e.Files[0]] && c18CoreRe.MatchString(e.Expr) && !coreSeen[e.Expr+"\x00"+e.Files[0]] {
